@@ -33,6 +33,7 @@
 #include <errno.h>
 #include <sys/mman.h>
 #include <sys/types.h>
+#include <sys/syscall.h>
 #include "TinyJAMBU.h"
 #ifdef TJD_TAINT
 #include <valgrind/memcheck.h>
@@ -335,7 +336,20 @@ static void op_dec(int tagonly)
     int res;
     galloc(&m, "m", outlen, g_place, g_offn > 0 ? g_off[0] : 0);
     memset(m.p, pf, m.len);
-    if (alias) {
+    /* adj=1: the plaintext buffer starts exactly where the packet ends; adj=2: the packet starts exactly where the
+     * plaintext buffer ends (touching, not overlapping: both are ordinary separate-buffer calls) */
+    int adj = (int)kvi("adj", 0);
+    gbuf both; memset(&both, 0, sizeof(both));
+    if (adj && !alias) {
+        galloc(&both, "c+m", c.len + outlen, g_place, 0);
+        if (adj == 1) { memcpy(both.p, c.p, c.len); memset(both.p + c.len, pf, outlen); }
+        else { memset(both.p, pf, outlen); memcpy(both.p + outlen, c.p, c.len); }
+    }
+    if (adj && !alias) {
+        cp = (adj == 1) ? both.p : both.p + outlen;
+        mp = (adj == 1) ? both.p + c.len : both.p;
+        gro(&k); gro(&n); gro(&ad);
+    } else if (alias) {
         /* in place: the plaintext overwrites the start of the ciphertext buffer */
         mp = c.p; cp = c.p;
         gro(&k); gro(&n); gro(&ad);
@@ -355,7 +369,10 @@ static void op_dec(int tagonly)
     if (!alias) inmod |= !inputs_same(&c, ccopy);
     else if (c.len >= 8) inmod |= (memcmp(c.p + outlen, ccopy + outlen, 8) != 0);  /* tag bytes stay */
     int untouched = 1;
-    if (alias) untouched = !memcmp(c.p, ccopy, c.len);
+    if (adj && !alias) {
+        inmod |= (memcmp(cp, ccopy, c.len) != 0);
+        for (size_t i = 0; i < outlen; i++) if (mp[i] != pf) untouched = 0;
+    } else if (alias) untouched = !memcmp(c.p, ccopy, c.len);
     else for (size_t i = 0; i < m.len; i++) if (m.p[i] != pf) untouched = 0;
     jbegin(tagonly ? "DecTag" : "Dec"); jstr("mode", mode); jint("v", v);
     if (tagonly) {
@@ -368,10 +385,11 @@ static void op_dec(int tagonly)
     jint("mlen", mlen == (size_t)-1 ? -1 : (long)mlen);
     jbytes("mout", mp ? mp : m.p, outlen);
     jint("untouched", untouched); jint("alias", alias); jint("inmod", inmod);
-    jint("canary", gcanary(&c) && gcanary(&m) && gcanary(&ad) && gcanary(&k) && gcanary(&n));
-    jint("taint", vgerr);
+    jint("canary", gcanary(&c) && gcanary(&m) && gcanary(&ad) && gcanary(&k) && gcanary(&n) && gcanary(&both));
+    jint("taint", vgerr); jint("adj", adj);
     jend();
     free(ccopy); free(adcopy); free(kcopy); free(ncopy);
+    if (both.map) gfree(&both);
     gfree(&k); gfree(&n); gfree(&ad); gfree(&c); gfree(&m);
 }
 
@@ -830,6 +848,18 @@ ssize_t __wrap_getrandom(void *buf, size_t len, unsigned flags)
     }
     if (!n) { errno = EIO; return -1; }
     return (ssize_t)len;
+}
+/* the other two spellings of the OS entropy call a build may select (getentropy: 0 on success;
+ * raw syscall: like getrandom, libc convention -1/errno on failure) */
+int __wrap_getentropy(void *buf, size_t len)
+{
+    return __wrap_getrandom(buf, len, 0) < 0 ? -1 : 0;
+}
+long __real_syscall(long number, long a, long b, long c, long d, long e, long f);
+long __wrap_syscall(long number, long a, long b, long c, long d, long e, long f)
+{
+    if (number == SYS_getrandom) return (long)__wrap_getrandom((void *)a, (size_t)b, (unsigned)c);
+    return __real_syscall(number, a, b, c, d, e, f);
 }
 #endif
 static void jentropy(void)
